@@ -276,7 +276,7 @@ func ruleR26(c *Ctx) {
 		}
 	}
 	c.r.note("R26: %d write sinks and %d retention sinks on slices that may alias a key argument, in %d functions reachable from byte-keyed entry points", nW, nR, len(units))
-	c.r.floor("R26", 8, "alias sinks", "C13")
+	c.r.floor("R26", 5, "alias sinks", "C13")
 }
 
 // R17 COLLBUF – discipline of the tree-lifetime collation buffer.
